@@ -119,6 +119,19 @@ def shapes(fmt):
         if fmt == 'aif' and tag == 'zero_in_the_middle':
             continue  # interleaved branches: listed finding of the AIF format
         yield f"shape:{tag}", pygaps.PointIsotherm(pressure=p, loading=l, branch=b, **meta)
+    # a table with repeated row labels (pandas.concat of two measurements), branch given and guessed
+    a = pandas.DataFrame({'pressure': [0.1, 0.2, 0.3], 'loading': [1.0, 2.0, 2.5]})
+    for br in ('ads', 'guess'):
+        try:
+            iso = pygaps.PointIsotherm(isotherm_data=pandas.concat([a, a + 0.3]), pressure_key='pressure', loading_key='loading', branch=br, **meta)
+        except Exception as exc:  # a legal table: reported by the round-trip case, not a generator crash
+            iso = exc
+        yield f"shape:repeated_row_labels|branch={br}", iso
+    # a model isotherm whose ranges are numpy scalars (what a fit leaves behind)
+    m = _model('Langmuir', random.Random(5))
+    m.pressure_range = (numpy.float64(0.01), numpy.float64(0.9))
+    m.loading_range = (numpy.float64(0.1), numpy.float64(3.5))
+    yield "shape:model_ranges_numpy_floats", pygaps.ModelIsotherm(model=m, **meta)
     p, l = [0.05, 0.1, 0.2, 0.4, 0.3, 0.15], [0.5, 1.0, 1.5, 2.0, 1.9, 1.6]
     cols = {'temperature_cell': [77.1, 77.2, 77.3, 77.2, 77.1, 77.0], 'enthalpy': [9.0, 8.5, 8.0, 7.5, 7.7, 8.1], 'dose': [1, 2, 3, 4, 5, 6]}
     for order in (('temperature_cell', 'enthalpy', 'dose'), ('dose', 'enthalpy', 'temperature_cell'), ('enthalpy', 'temperature_cell', 'dose')):
